@@ -169,6 +169,13 @@ def subgroup_stream(ctx):
         dtype = rng.choice([torch.float32, torch.float64])
         entry = rng.choice(['broadcast', 'broadcast', 'allreduce', 'allreduce_bucketed'])
         avg = entry != 'broadcast' and rng.random() < 0.5
+        if trial % 3 == 0:
+            # directed: averaged symmetric all-reduce over a group whose size is not a power of two, enough entries for
+            # the rounding of (1/n) * sum to matter
+            world = rng.choice([3, 5, 6])
+            members = sorted(rng.sample(range(world), rng.choice([3, world])))
+            src, n, avg = members[0], rng.choice([7, 9, 12]), True
+            entry = rng.choice(['allreduce', 'allreduce_bucketed'])
         case = {'world': world, 'group': members, 'src': src, 'n': n, 'dtype': str(dtype), 'entry': entry, 'average': avg}
 
         def prog(rank, members=members, src=src, n=n, dtype=dtype, entry=entry, avg=avg):
@@ -179,7 +186,7 @@ def subgroup_stream(ctx):
             tdc = TorchDistributedCommunicator(bucket_cap_mb=25.0)
             out = {}
             for symflag in (True, False):
-                t = (sym_matrix(n, dtype, 2**20) * (rank + 1) + 3) * (len(members) if avg else 1)
+                t = sym_matrix(n, dtype, 2**20) * (rank + 1) + 3      # (NOT a multiple of the group size: the average rounds)
                 if entry == 'broadcast':
                     f = tdc.broadcast(t, src=src, group=g, symmetric=symflag)
                 elif entry == 'allreduce':
@@ -196,7 +203,9 @@ def subgroup_stream(ctx):
             continue
         for r in members:
             want = sym_matrix(n, dtype, 2**20) * (src + 1) + 3 if entry == 'broadcast' else \
-                sum(sym_matrix(n, dtype, 2**20) * (m + 1) + 3 for m in members)       # (averaged payloads were pre-multiplied)
+                sum(sym_matrix(n, dtype, 2**20) * (m + 1) + 3 for m in members)
+            if avg:
+                want = (1 / len(members)) * want          # the dense path's own rounding: (1/n) * (exact sum)
             o = res[r]
             if not torch.equal(o[True], o[False]) or not torch.equal(o[False], want):
                 ctx.fail(f'rank {r} of group {members}: symmetric {entry} (source {src}) differs from the dense one / the expected tensor',
